@@ -137,7 +137,7 @@ CHECKS = {
               "<= 2 (thorough 3) pre-calls from {ProcessProposal(decided), PrepareProposal(decided), ProcessProposal(other), "
               "PrepareProposal(other), ProcessProposal(undecodable), ProcessProposal(rejected after partial execution), restart} followed by FinalizeBlock(decided)+Commit, each on an "
               "identically built chain with real storage; compared with the sync path on app hash, per-tx (code, data, gas), "
-              "validator/consensus-param updates, the full committed state dump, and success/failure."),
+              "validator/consensus-param updates, the full committed state dump, and success/failure; a follow-up block for the next height (proposed once) is then finalized on every node and its app hash and result codes compared."),
         note="Single decided block after a fixed prefix; hash-map iteration order inside the app is sampled (one App per path), not enumerated. One known finding listed in known_findings.txt.",
         design_ref="2 C05",
     ),
